@@ -258,6 +258,10 @@ def run_once(case, env, tmpdir, state, fault, res, buffered=False):
     cols, rows = case["term"]
     env.set_winsize(cols, rows, cols * 4, rows * 8)
     S.reset_tokens()
+    # the harness keeps its own reference to every render-data object, so that finalization
+    # by the garbage collector (RenderData.__del__) cannot stand in for draw()'s own
+    S.hold_refs = True
+    del S.held[:]
     call, info = build_subject(case, env, tmpdir, state)
     obj = info["obj"]
     probe = Probe(fault)
@@ -363,6 +367,7 @@ def run_once(case, env, tmpdir, state, fault, res, buffered=False):
             for t in S.created:
                 if S_fin.get(t, 0) != 1:
                     errs.append(("render-data-not-finalized", "finalized %d times" % S_fin.get(t, 0)))
+            del S.held[:]
     if "close" in info:
         info["close"]()
     return probe, outcome, errs
